@@ -146,8 +146,8 @@ KronIndex(names, dims, digits) ==
     ELSE digits[Head(names)] * Prod([j \in 1..(Len(names) - 1) |-> Sq(dims[names[j + 1]])])
          + KronIndex(Tail(names), dims, digits)
 
-RECURSIVE SortSeq(_)
-Min(S) == CHOOSE x \in S : \A y \in S : x <= y
-SortSeq(S) == IF S = {} THEN <<>> ELSE <<Min(S)>> \o SortSeq(S \ {Min(S)})
+RECURSIVE SortAsc(_)
+MinSet(S) == CHOOSE x \in S : \A y \in S : x <= y
+SortAsc(S) == IF S = {} THEN <<>> ELSE <<MinSet(S)>> \o SortAsc(S \ {MinSet(S)})
 
 =============================================================================
